@@ -52,8 +52,9 @@ var goodValues = [NumRequired][]string{
 }
 
 var wrongValues = [NumRequired][]string{
-	HHost:       nil, // "carrying Host": there is no wrong value (the empty one is open)
-	HUpgrade:    {"websocket2", "h2c", "", "web socket", "websocke", "xwebsocket", "websocket/13", "websockets", "TLS/1.0", "web-socket"},
+	HHost: nil, // "carrying Host": there is no wrong value (the empty one is open)
+	HUpgrade: {"websocket2", "h2c", "", "web socket", "websocke", "xwebsocket", "websocket/13", "websockets", "TLS/1.0", "web-socket", "websock\xc3\xa9t",
+		"web\xc5\xbfocket", "websoc\xe2\x84\xaaet", "WEB\xc5\xbfOC\xe2\x84\xaaET"}, // the last three: Unicode-fold-only matches (finding C09/upgrade-value-unicode-fold)
 	HConnection: {"keep-alive", "Upgrades", "", "close", "xupgrade", "keep-alive, close", "up-grade", "Upgrade2", "keep-alive, Upgrades", "websocket"},
 	HVersion:    {"12", "8", "", "13, 8", "8, 13", "013", "14", "130", "1 3", "13x", "0", "1", "3", "x13", "13.0", "-13"},
 	HKey:        nil, // drawn: wrong lengths
@@ -62,7 +63,7 @@ var wrongValues = [NumRequired][]string{
 // open-class spellings (asserted only through the unconditional invariants)
 var openValues = [NumRequired][]string{
 	HHost:       {""},
-	HUpgrade:    {"websocket, h2c", "h2c, websocket", "web\xc5\xbfocket", "websoc\xe2\x84\xaaet"},
+	HUpgrade:    {"websocket, h2c", "h2c, websocket", "websocket,"},
 	HConnection: {"keep-alive,\tUpgrade", "Upgrade\t,keep-alive", "\"Upgrade\"", "Upgrade;q=1", ",Upgrade", "Upgrade,", "a b, Upgrade", "keep-alive,,Upgrade", "(c) Upgrade", "Upgrade, \"x", "a=b, upgrade", "keep-alive, Upgr\xc3\xa4de"},
 	HVersion:    nil,
 	HKey:        {"AAAAAAAAAAAAAAAAAAAAAAAA", "!!!!!!!!!!!!!!!!!!!!!!!!", "AAAAAAAAAAAAAAAAAAAAAA=A", "AAAAAAAAAAAAAAAAAAAAAB==", "====AAAAAAAAAAAAAAAAAAAA"},
